@@ -528,6 +528,9 @@ def run(facts, tier, ctx):
     out += [r for r in c10.run(facts, tier, ctx) if r.rule in ("STATE-ENUM", "RESET", "STALE-READ", "PLAIN-STATE", "KEY")]
     out += c03.par_rules(facts)
     out += lib_fill.parcontext_siblings(facts)
+    # single-thread mode hashes through Context's fills, multi-thread mode through ParContext -> fill_le_bytes: the digest
+    # bytes of STREAMINFO agree between the modes only if the two Context fills hash the same bytes (C14's sibling rule)
+    out += lib_fill.context_siblings(facts)
     out += type_shape(facts)
     out += worker_pairing(facts)
     out += feeder_rules(facts)
